@@ -39,9 +39,50 @@ def run(ctx) -> None:
     for dev in concrete_devices(ctx):
         ctx.reuse("C05.source-comp", c01.pair_transfer, dev)
     ctx.reuse("C05.source-comp", c01.pair_distribute, "C01.pair-distribute")
+    ctx.guard("C05.comp-forwarding", comp_forwarding)
+    from . import c04, c13
+
+    ctx.reuse("C05.comp-forwarding", c13.same_args, "evo_dispense", "add")
+    # the flat list of compositions is paired with the wells in column-major order (the documented flattening)
+    ctx.reuse("C05.mix-args", c04.pairing_family)
     ctx.guard("C05.default-name", default_name)
     ctx.guard("C05.default-name", trough_names)
     ctx.guard("C05.default-name", _name_buffers)
+
+
+def comp_forwarding(ctx) -> None:
+    """Every entry point that accepts `compositions` (dispense, evo_dispense) hands them, unchanged, to Labware.add - or
+    to another entry point that does. A `compositions` parameter that is accepted and dropped makes the dispensed
+    components vanish from the tracking."""
+    rule = "C05.comp-forwarding"
+    n = 0
+    for f in ctx.prog.all_functions():
+        if "compositions" not in f.params or f.short == "Labware.add" or "test" in f.module.name:
+            continue
+        n += 1
+        fv = ctx.fv(f, f.cls)
+        ctx.rep.touch(f)
+        c = f"{f.qualname}/compositions"
+        uses = [x for x in own_walk(f.node) if isinstance(x, ast.Name) and x.id == "compositions" and isinstance(x.ctx, ast.Load)]
+        if not uses:
+            ctx.rep.refuted(rule, c, f"{f.short} accepts `compositions` but never uses them: the dispensed liquid is booked without its components", where=f.where())
+            continue
+        fwd = []
+        for cs in fv.calls():
+            g = cs.callee.func if cs.callee.kind == "func" else None
+            if g is None or "compositions" not in g.params:
+                continue
+            b = fv.bind_args(cs) or {}
+            if "compositions" in b:
+                fwd.append((cs, b["compositions"]))
+        if not fwd:
+            ctx.rep.inconclusive(rule, c, "`compositions` is used but no resolved call receives it as `compositions`", where=f.where())
+            continue
+        for cs, arg in fwd:
+            t = fv.res.resolve(arg, cs.node)
+            ctx.rep.check(is_name(strip_norm(t), "compositions"), rule, c + f"[{cs.callee.func.short}]", "the given compositions are handed on unchanged",
+                          f"`{cs.callee.func.short}` receives compositions=`{show(t)[:50]}` instead of the caller's compositions", where=f.where(cs.call))
+    ctx.rep.floor(rule, "entry points that accept compositions", n, 2)
 
 
 def owner(ctx) -> None:
@@ -379,6 +420,20 @@ def default_name(ctx) -> None:
         if isinstance(it, ast.Call) and call_fname(it) == "ndenumerate" and it.args and is_name(it.args[0], "real_wells"):
             main = lp
     if main is None:
+        # index and well ID from two different traversals: zip(ndindex(shape), <wells>) pairs them correctly only if the wells
+        # come in the array's own (row-major) order - a sorted / de-duplicated copy is in a different order in general
+        from .common import seq_transformers
+
+        for lp in loops:
+            it = fv.res.resolve(lp.ast.iter, lp.id)
+            if isinstance(it, ast.Call) and call_fname(it) == "zip" and any(call_fname(a) == "ndindex" for a in it.args):
+                for a in it.args:
+                    if any(isinstance(x, ast.Name) and x.id == "real_wells" for x in ast.walk(a)) and call_fname(a) != "ndindex":
+                        tr = [t for t in seq_transformers(a) if t in ("unique", "sorted", "set", "sort", "frozenset")] + ([call_fname(a)] if call_fname(a) in ("unique", "sorted", "set") else [])
+                        if tr:
+                            ctx.rep.refuted(rule, f.qualname + "/index-pairing", f"the wells are visited as `{show(a)[:50]}` ({tr[0]}: in sorted order) while their index comes from ndindex (array order): "
+                                            "sorted IDs are not in array order in general (column 100 sorts before column 11), so components are written at the index of a different well", where=f.where(lp.ast))
+                            return
         raise AnalysisInconclusive(rule, f.qualname, "loop over ndenumerate(real_wells) not found")
     loopid = f"loop@{main.id}"
     body = fv.cfg.loop_body[main.id]
